@@ -78,6 +78,10 @@ CHECKS['C17'] = dict(cat='fault_enumeration', ref='4 C17',
    text='Every (program, recursion limit) pair of a contiguous limit range (so the strike point sweeps over every frame kind) is executed in forked children, combined with projection functions raising at the k-th answer (custom exception, RuntimeError, StopIteration, KeyboardInterrupt) and with the generator passed inline or held by the caller; hooks record every sys.setrecursionlimit call, the limit before/after, the binding state of all registered Variables after finalisation, unraisable events and the child exit status. The result must be a prefix of the reference answers and complete whenever a direct enumeration under the same limit at the same stack depth completes.',
    note='Trusted: reference interpreters A and B for the answer sequence; the observer inside the projection is iterative (reads binding cells) so it is not itself subject to the lowered limit. Limits above 1000 are outside the explored space (CPython aborts when closing very deep generator chains).',
    tech='fault enumeration over recursion limits and projection faults in forked children with hooks on sys.setrecursionlimit and the Variable registry')
+CHECKS['C12'] = dict(cat='exploration', ref='4 C12',
+   text='Three runtime monitors over hostile programs (unique-marker hostile strings in every syntactic position, variables named after every context key): (1) a taint/whitelist rule on the AST of the emitted code (only function definitions named by heads, whitelisted node types, call targets are API names, every string constant equals a source name exactly, loads are local or API, stores never shadow the API); (2) an execution monitor - sys.addaudithook during load and queries may see only the compile/exec of the script, sys.monitoring CALL events inside script code may target only this engine\'s API callables, function globals contain only the API with empty __builtins__; (3) hostile run-time queries with spy wrappers on every API entry; plus a metamorphic check that renaming variables to hostile names changes no answer.',
+   note='Trusted: CPython audit events and sys.monitoring CALL events as the execution record; the AST whitelist as the documented shape of generated code. Head names that are not identifiers are rejected by the compiler and only counted.',
+   tech='runtime monitors: audit hook, sys.monitoring CALL callee whitelist, AST taint rule on emitted code, API spies')
 PENDING = {}
 
 def main():
